@@ -396,6 +396,40 @@ fn world_inner(e: &mut Emit, cfg: &Cfg, plan: &Plan) -> Option<Vec<String>> {
         digest.push(format!("pks {}", fl(cts[0].data())));
     }
 
+    // ---- the ciphertext-consuming protocols once more on a ciphertext switched down one level (BGV: correction factor != 1)
+    if !ckks && plan.drop.is_none() && s.levels().len() >= 2 {
+        let low = s.evaluator.mod_switch_to_next_new(&ct1);
+        let low_qs = s.level_qs(low.parms_id());
+        let low_bits: f64 = low_qs.iter().map(|&q| log2f(q as f64)).sum();
+        let pred_low = (low_bits - lt - ln - lp - 23.0).floor() as i64;
+        if pred_low >= 3 {
+            let lowcls = |x: &str| format!("{}-low-cf{}", cls(x), if low.correction_factor() != 1 { "x" } else { "1" });
+            let all_to_all = |cnt: usize| -> Vec<(usize, usize)> { (0..cnt).flat_map(|a| (0..cnt).filter(move |&b| b != a).map(move |b| (a, b))).collect() };
+            {
+                let mut protos: Vec<_> = parties.iter().map(|p| p.decrypt(&low)).collect();
+                let msgs: Vec<Vec<u8>> = protos.iter().map(|p| { let mut m = vec![]; p.send(&mut m).unwrap(); m }).collect();
+                for (sd, rc) in all_to_all(cnt) { protos[rc].receive(sd, &mut msgs[sd].as_slice()).unwrap(); }
+                let pts = finish_all!(protos, |p: DecryptionProtocol| p.finish());
+                let ok = pts.iter().all(|p| p.as_ref().map(|p| pt_str(p) == fl(&trim(&m1))).unwrap_or(false));
+                e.verdict(ok, &format!("mp_low_decrypt dec {} cf={}", id, low.correction_factor()), &lowcls("low-decrypt"), "collective decryption of a modulus-switched ciphertext is not the plaintext for every party");
+                if let Some(Some(p0)) = pts.get(0) { e.case(format!("prog {} {} {}", ct_case(&sk_sum_c, &low), pred_low, fl(&trim(&m1))), &lowcls("low-collective-decrypt"), pt_str(p0)); }
+            }
+            if ctx.first_context_data().unwrap().qualifiers().using_batching {
+                let sampler = BFVShareSampler::new(ctx.clone());
+                let enc = BFVSimdShareEncoder::new(ctx.clone());
+                let be = BatchEncoder::new(ctx.clone());
+                let want = { let mut v = be.decode_new(&plain_of(&m1)); v.resize(n, 0); v };
+                let mut protos: Vec<_> = parties.iter().map(|p| p.cipher_to_shares(low.clone(), &sampler, &enc)).collect();
+                let msgs: Vec<Vec<u8>> = protos.iter().enumerate().map(|(i, p)| { let mut m = vec![]; if i != 0 { p.send(&mut m).unwrap(); } m }).collect();
+                for sd in 1..cnt { protos[0].receive(sd, &mut msgs[sd].as_slice()).unwrap(); }
+                let shares = finish_all!(protos, |p: CipherToSharesProtocol<Vec<u64>>| p.finish(&enc));
+                let ok = shares.iter().all(|x| x.is_some());
+                let sum = shares.iter().flatten().fold(vec![0u64; n], |acc, sh| shadow_add(&acc, sh, t));
+                e.verdict(ok && sum == want, &format!("mp_low_shares_sum c2s {} cf={}", id, low.correction_factor()), &lowcls("low-c2s-sum"), &format!("shares of a modulus-switched ciphertext sum to {:?}, plaintext slots are {:?}", &sum[..n.min(8)], &want[..n.min(8)]));
+            }
+        }
+    }
+
     // ---- ciphertext -> additive shares -> ciphertext (schemes with a batching plain modulus)
     let batching = !ckks && ctx.first_context_data().unwrap().qualifiers().using_batching;
     if batching {
